@@ -1,6 +1,466 @@
-import SdbModel.Model.Art
-import SdbModel.Model.PMap
+import SdbModel.Lemmas.ArtTxn
+import SdbModel.Lemmas.ArtInv
+import SdbModel.Lemmas.ArtMulti
+import SdbModel.Lemmas.ArtRootOnly
 import SdbModel.Generated.ArtParams
-/-! # C12 — theorems under construction (see DESIGN.md section 4) -/
+
+/-!
+# C12 — part.Tree watch channels close exactly on notification of relevant changes
+
+> After a part.Tree transaction is committed and notified, the previous tree's
+> root watch channel is closed if the transaction inserted, modified or deleted
+> any key and is left open otherwise (deleting an absent key is not a change),
+> the channel returned earlier by Get(k) is closed if k was inserted, replaced
+> or deleted, and the channel returned by Prefix(p) is closed if any key
+> starting with p was; channels from InsertWatch/ModifyWatch close when that key
+> is next changed. No watch channel is closed when handed out, before Notify, or
+> by a transaction that is abandoned.
+
+Theorems over `Model.Art` (the executable model of part/txn.go, node.go,
+iterator.go, tree.go that the differential harness runs against the Go code),
+for EVERY tree shape, key (including the empty key), value, modify function
+and node-kind parameter set.
+
+* must-close, one call: for a change made while no node of the tree is owned
+  by the transaction (`TxnFresh`: the state right after `Tree.Txn()` on any
+  committed tree - stamp invariant `TreeWF`, proved for every reachable tree -
+  and after every call that bumps the transaction id) the Get / Prefix channel
+  is recorded by insert / delete (all shapes) and closed by Commit + Notify;
+* must-close, any number of calls (`…_any_calls`): for a transaction opened on
+  a committed tree, via the invariant "nodes owned by the transaction carry
+  fresh channels" and a frame lemma (a call on another key keeps or records
+  the channel of a watched key);
+* root watch closed iff some call changed the tree; nothing closed otherwise;
+* `World.closed` only changes at Notify (sessions with Commit / abandon);
+* not handed out closed: the channel invariant `TreeInv` (channels of a tree
+  pairwise distinct, allocated, open) is preserved by whole transactions and
+  holds along every linear history (`Hist`);
+* InsertWatch / ModifyWatch: the returned channel is the Get channel of the
+  key on the new tree, open after Commit + Notify, closed by the next change.
+
+Not covered (restriction of the library, witnessed by
+`C12_in_txn_channel_after_own_write_not_closed_refuted`): a channel obtained
+from an open transaction AFTER it has modified the tree, with respect to later
+calls of the SAME transaction made without an id bump in between - nodes owned
+by the transaction are updated in place and their channels are not recorded.
+-/
 namespace Sdb
+open Art ArtW
+
+/-! ## 1. path closure at the node level (all shapes) -/
+
+/-- **Get(k) channel vs. insert/modify of k**: the channel `search` hands out for
+    `k` on a subtree none of whose nodes is owned by the transaction is recorded
+    for closing by the insert of `k` into it, unless it is the inherited (root)
+    watch `w0` -/
+theorem C12_get_channel_recorded_by_insert (P : ArtParams) (st : St) (n : Node) (k full : List Nat) (v : Nat)
+    (mod : Option (Nat → Nat → Nat)) (w0 : Nat) (hs : Stamps (· ≠ st.txnID) n) :
+    (searchNode n w0 k).2 = w0 ∨ (searchNode n w0 k).2 ∈ (insNode P st n k full v mod).st.pending :=
+  insNode_closes P st n k full v mod w0 hs
+
+/-- **Get(k) channel vs. delete of a present k** (all cases of removeChild) -/
+theorem C12_get_channel_recorded_by_delete (P : ArtParams) (st : St) (n : Node) (k : List Nat) (w0 : Nat) (st' : St)
+    (hs : Stamps (· ≠ st.txnID) n) (hdel : delSt (delNode P st n k) = some st') :
+    (searchNode n w0 k).2 = w0 ∨ (searchNode n w0 k).2 ∈ st'.pending :=
+  delNode_closes P st n k w0 st' hs hdel
+
+/-- **Prefix(p) channel vs. insert/modify of any key starting with p** -/
+theorem C12_prefix_channel_recorded_by_insert (P : ArtParams) (st : St) (n : Node) (k full : List Nat) (v : Nat)
+    (mod : Option (Nat → Nat → Nat)) (w0 : Nat) (p : List Nat) (hs : Stamps (· ≠ st.txnID) n)
+    (hkp : hasPrefix k p = true) :
+    (prefixNode n w0 p).2 = w0 ∨ (prefixNode n w0 p).2 ∈ (insNode P st n k full v mod).st.pending :=
+  insNode_closes_prefix P st n k full v mod w0 p hs hkp
+
+/-- **Prefix(p) channel vs. delete of a present key starting with p** -/
+theorem C12_prefix_channel_recorded_by_delete (P : ArtParams) (st : St) (n : Node) (k : List Nat) (w0 : Nat)
+    (p : List Nat) (st' : St) (hs : Stamps (· ≠ st.txnID) n) (hkp : hasPrefix k p = true)
+    (hdel : delSt (delNode P st n k) = some st') :
+    (prefixNode n w0 p).2 = w0 ∨ (prefixNode n w0 p).2 ∈ st'.pending :=
+  delNode_closes_prefix P st n k w0 p st' hs hkp hdel
+
+/-! ## the stamp precondition is an invariant -/
+
+/-- every tree a client can hold (new, or Commit/Clone of a transaction opened
+    on such a tree after any calls) has all stamps below its `nextTxnID` -/
+theorem C12_stamps_below_next_id_reachable (P : ArtParams) (t : Tree) (h : Reach P t) : TreeWF t := h.wf
+
+/-- … hence a transaction opened on it owns no node -/
+theorem C12_new_txn_owns_nothing (P : ArtParams) (t : Tree) (h : Reach P t) (wd : World) : TxnFresh (t.txn wd) :=
+  (h.wf.txn wd).2
+
+/-- … and neither does a transaction right after a call that bumps its id -/
+theorem C12_bumped_txn_owns_nothing (P : ArtParams) (t : Tree) (h : Reach P t) (wd : World) (ops : List Op) :
+    TxnFresh (run P (t.txn wd) ops).bump :=
+  (((h.wf.txn wd).1.run P ops).bump).2
+
+/-! ## 2. root watch, and the closure lifted to Commit + Notify -/
+
+/-- Notify closes exactly the recorded channels and, iff dirty, the old root watch -/
+theorem C12_notify_closes_exactly (x : Txn) (wd : World) (c : Nat) :
+    c ∈ (x.notify wd).2.closed ↔
+      c ∈ wd.closed ∨ c ∈ x.st.pending ∨ (x.dirty = true ∧ x.rootWatch ≠ 0 ∧ c = x.rootWatch) :=
+  notify_closed x wd c
+
+/-- a transaction is dirty iff one of its calls changed the tree (Insert/Modify
+    always, Delete only of a present key) -/
+theorem C12_dirty_iff_some_change (P : ArtParams) (t : Tree) (wd : World) (ops : List Op) :
+    (run P (t.txn wd) ops).dirty = anyChange P (t.txn wd) ops := by
+  rw [run_dirty]; rfl
+
+theorem C12_delete_absent_is_no_change (P : ArtParams) (x : Txn) (k : List Nat) (h : (x.delete P k).2 = none) :
+    (x.delete P k).1 = x := delete_absent P x k h
+
+/-- **root watch closed if anything changed**, whether Notify runs before or after Commit -/
+theorem C12_root_watch_closed_if_changed (P : ArtParams) (t : Tree) (wd wd' wd'' : World) (ops : List Op)
+    (hrw : t.rootWatch ≠ 0) (hch : anyChange P (t.txn wd) ops = true) :
+    t.rootWatch ∈ (((run P (t.txn wd) ops).commit wd').1.notify wd'').2.closed ∧
+    t.rootWatch ∈ ((run P (t.txn wd) ops).notify wd'').2.closed := by
+  have hd : (run P (t.txn wd) ops).dirty = true := by rw [C12_dirty_iff_some_change, hch]
+  have hl := later_run P (t.txn wd) ops
+  constructor
+  · exact closed_of_later (later_commit _ wd') wd'' _ hrw hd (Or.inl hl.rw.symm)
+  · exact closed_of_later (Later.refl _) wd'' _ hrw hd (Or.inl hl.rw.symm)
+
+/-- **root watch closed iff something changed** (for a root watch that is a real,
+    still open channel) -/
+theorem C12_root_watch_closed_iff_changed (P : ArtParams) (t : Tree) (wd wd' wd'' : World) (ops : List Op)
+    (hrw : t.rootWatch ≠ 0) (hopen : t.rootWatch ∉ wd''.closed) :
+    t.rootWatch ∈ (((run P (t.txn wd) ops).commit wd').1.notify wd'').2.closed ↔
+      anyChange P (t.txn wd) ops = true := by
+  constructor
+  · intro hc
+    cases hch : anyChange P (t.txn wd) ops with
+    | true => rfl
+    | false =>
+      exfalso
+      have hd : (run P (t.txn wd) ops).dirty = false := by rw [C12_dirty_iff_some_change, hch]
+      obtain ⟨_, _, h3⟩ := run_unchanged P (t.txn wd) ops hch
+      rw [notify_closed] at hc
+      have hp : ((run P (t.txn wd) ops).commit wd').1.st.pending = [] := h3
+      have hd' : ((run P (t.txn wd) ops).commit wd').1.dirty = false := hd
+      simp [hp, hd'] at hc
+      exact hopen hc
+  · intro hch
+    exact (C12_root_watch_closed_if_changed P t wd wd' wd'' ops hrw hch).1
+
+/-- **left open otherwise**: a transaction none of whose calls changed the tree
+    closes nothing at all -/
+theorem C12_nothing_closed_if_unchanged (P : ArtParams) (t : Tree) (wd wd' wd'' : World) (ops : List Op)
+    (hch : anyChange P (t.txn wd) ops = false) (c : Nat) :
+    (c ∈ (((run P (t.txn wd) ops).commit wd').1.notify wd'').2.closed ↔ c ∈ wd''.closed) ∧
+    ((run P (t.txn wd) ops).commit wd').2.1.rootWatch = t.rootWatch := by
+  have hd : (run P (t.txn wd) ops).dirty = false := by rw [C12_dirty_iff_some_change, hch]
+  obtain ⟨_, h2, h3⟩ := run_unchanged P (t.txn wd) ops hch
+  constructor
+  · rw [notify_closed]
+    have : ((run P (t.txn wd) ops).commit wd').1.st.pending = [] := h3
+    have hd' : ((run P (t.txn wd) ops).commit wd').1.dirty = false := hd
+    simp [this, hd']
+  · simp only [Txn.commit, hd]
+    exact h2
+
+/-- **Get(k) channel closed after insert/modify of k, Commit and Notify**: `x` is
+    the open transaction (no node owned), `c` the channel Get(k) returns on it -
+    on a freshly opened transaction that is the channel `Tree.Get(k)` returned on
+    the committed tree.  Any further calls may follow before Commit. -/
+theorem C12_get_channel_closed_after_insert (P : ArtParams) (x : Txn) (hf : TxnFresh x) (k : List Nat) (v : Nat)
+    (mod : Option (Nat → Nat → Nat)) (ops : List Op) (wd' wd'' : World)
+    (hc0 : (getRoot x.root x.rootWatch k).2 ≠ 0) :
+    (getRoot x.root x.rootWatch k).2 ∈
+      (((run P (x.insert P k v mod).1 ops).commit wd').1.notify wd'').2.closed := by
+  have hl := (later_run P (x.insert P k v mod).1 ops).trans (later_commit _ wd')
+  refine closed_of_later hl wd'' _ hc0 (insert_dirty ..) ?_
+  rcases txn_insert_closes_get P x k v mod hf with h | h
+  · left; rw [h]; exact (later_insert P x k v mod).rw.symm
+  · right; exact h
+
+/-- the same for Delete of a present key -/
+theorem C12_get_channel_closed_after_delete (P : ArtParams) (x : Txn) (hf : TxnFresh x) (k : List Nat)
+    (ops : List Op) (wd' wd'' : World) (hpres : (x.delete P k).2 ≠ none)
+    (hc0 : (getRoot x.root x.rootWatch k).2 ≠ 0) :
+    (getRoot x.root x.rootWatch k).2 ∈
+      (((run P (x.delete P k).1 ops).commit wd').1.notify wd'').2.closed := by
+  have hl := (later_run P (x.delete P k).1 ops).trans (later_commit _ wd')
+  obtain ⟨_, _, _, _, _, hd⟩ := delete_present P x k hpres
+  refine closed_of_later hl wd'' _ hc0 hd ?_
+  rcases txn_delete_closes_get P x k hf hpres with h | h
+  · left; rw [h]; exact (later_delete P x k).rw.symm
+  · right; exact h
+
+/-- **Prefix(p) channel closed after insert/modify of a key starting with p** -/
+theorem C12_prefix_channel_closed_after_insert (P : ArtParams) (x : Txn) (hf : TxnFresh x) (k p : List Nat) (v : Nat)
+    (mod : Option (Nat → Nat → Nat)) (ops : List Op) (wd' wd'' : World) (hkp : hasPrefix k p = true)
+    (hc0 : (prefixRoot x.root x.rootWatch p).2 ≠ 0) :
+    (prefixRoot x.root x.rootWatch p).2 ∈
+      (((run P (x.insert P k v mod).1 ops).commit wd').1.notify wd'').2.closed := by
+  have hl := (later_run P (x.insert P k v mod).1 ops).trans (later_commit _ wd')
+  refine closed_of_later hl wd'' _ hc0 (insert_dirty ..) ?_
+  rcases txn_insert_closes_prefix P x k v mod p hf hkp with h | h
+  · left; rw [h]; exact (later_insert P x k v mod).rw.symm
+  · right; exact h
+
+/-- **Prefix(p) channel closed after delete of a present key starting with p** -/
+theorem C12_prefix_channel_closed_after_delete (P : ArtParams) (x : Txn) (hf : TxnFresh x) (k p : List Nat)
+    (ops : List Op) (wd' wd'' : World) (hkp : hasPrefix k p = true) (hpres : (x.delete P k).2 ≠ none)
+    (hc0 : (prefixRoot x.root x.rootWatch p).2 ≠ 0) :
+    (prefixRoot x.root x.rootWatch p).2 ∈
+      (((run P (x.delete P k).1 ops).commit wd').1.notify wd'').2.closed := by
+  have hl := (later_run P (x.delete P k).1 ops).trans (later_commit _ wd')
+  obtain ⟨_, _, _, _, _, hd⟩ := delete_present P x k hpres
+  refine closed_of_later hl wd'' _ hc0 hd ?_
+  rcases txn_delete_closes_prefix P x k p hf hkp hpres with h | h
+  · left; rw [h]; exact (later_delete P x k).rw.symm
+  · right; exact h
+
+/-! ## transactions with any number of calls -/
+
+/-- **Get(k) channel, any number of calls**: `t` is a committed tree, the
+    transaction makes any calls `ops`; if one of them inserts / modifies `k` or
+    deletes a present `k` (`touched`), the channel `Tree.Get(k)` returned on `t`
+    is closed by Commit + Notify.  `hlt`: the channel was allocated before the
+    transaction started (an invariant of linear histories, see
+    `C12_get_channel_closed_any_calls_hist`). -/
+theorem C12_get_channel_closed_any_calls (P : ArtParams) (t : Tree) (hwf : TreeWF t) (wd wd' wd'' : World) (k : List Nat)
+    (ops : List Op) (hc0 : (getRoot t.root t.rootWatch k).2 ≠ 0)
+    (hlt : (getRoot t.root t.rootWatch k).2 < wd.nextW) (ht : touched P (t.txn wd) k ops = true) :
+    (getRoot t.root t.rootWatch k).2 ∈ (((run P (t.txn wd) ops).commit wd').1.notify wd'').2.closed ∧
+    (getRoot t.root t.rootWatch k).2 ∈ ((run P (t.txn wd) ops).notify wd'').2.closed := by
+  have hd : (run P (t.txn wd) ops).dirty = true := by
+    rw [C12_dirty_iff_some_change]; exact touched_anyChange P k ops _ ht
+  have hl := later_run P (t.txn wd) ops
+  have hrec : (getRoot t.root t.rootWatch k).2 = (run P (t.txn wd) ops).rootWatch ∨
+      (getRoot t.root t.rootWatch k).2 ∈ (run P (t.txn wd) ops).st.pending := by
+    rcases get_channel_recorded_multi P t hwf wd k ops hlt ht with h | h
+    · left; rw [h]; exact hl.rw.symm
+    · right; exact h
+  exact ⟨closed_of_later (later_commit _ wd') wd'' _ hc0 hd hrec, closed_of_later (Later.refl _) wd'' _ hc0 hd hrec⟩
+
+/-- the same along a linear history, where all hypotheses are invariants -/
+theorem C12_get_channel_closed_any_calls_hist (P : ArtParams) (wd : World) (t : Tree) (h : Hist P wd t) (k : List Nat)
+    (ops : List Op) (hc0 : (getRoot t.root t.rootWatch k).2 ≠ 0) (ht : touched P (t.txn wd) k ops = true) :
+    (getRoot t.root t.rootWatch k).2 ∈
+      (((run P (t.txn wd) ops).commit wd).1.notify ((run P (t.txn wd) ops).commit wd).2.2).2.closed :=
+  (C12_get_channel_closed_any_calls P t h.reach.wf wd wd _ k ops hc0 (h.inv.get_lt k hc0) ht).1
+
+/-- **Prefix(p) channel, any number of calls**: closed by Commit + Notify if one of
+    the calls inserts / modifies a key starting with `p`, or deletes a present one -/
+theorem C12_prefix_channel_closed_any_calls (P : ArtParams) (t : Tree) (hwf : TreeWF t) (wd wd' wd'' : World)
+    (p : List Nat) (ops : List Op) (hc0 : (prefixRoot t.root t.rootWatch p).2 ≠ 0)
+    (hlt : (prefixRoot t.root t.rootWatch p).2 < wd.nextW) (ht : touchedP P (t.txn wd) p ops = true) :
+    (prefixRoot t.root t.rootWatch p).2 ∈ (((run P (t.txn wd) ops).commit wd').1.notify wd'').2.closed ∧
+    (prefixRoot t.root t.rootWatch p).2 ∈ ((run P (t.txn wd) ops).notify wd'').2.closed := by
+  have hd : (run P (t.txn wd) ops).dirty = true := by
+    rw [C12_dirty_iff_some_change]; exact touchedP_anyChange P p ops _ ht
+  have hl := later_run P (t.txn wd) ops
+  have hrec : (prefixRoot t.root t.rootWatch p).2 = (run P (t.txn wd) ops).rootWatch ∨
+      (prefixRoot t.root t.rootWatch p).2 ∈ (run P (t.txn wd) ops).st.pending := by
+    rcases prefix_channel_recorded_multi P t hwf wd p ops hlt ht with h | h
+    · left; rw [h]; exact hl.rw.symm
+    · right; exact h
+  exact ⟨closed_of_later (later_commit _ wd') wd'' _ hc0 hd hrec, closed_of_later (Later.refl _) wd'' _ hc0 hd hrec⟩
+
+theorem C12_prefix_channel_closed_any_calls_hist (P : ArtParams) (wd : World) (t : Tree) (h : Hist P wd t)
+    (p : List Nat) (ops : List Op) (hc0 : (prefixRoot t.root t.rootWatch p).2 ≠ 0)
+    (ht : touchedP P (t.txn wd) p ops = true) :
+    (prefixRoot t.root t.rootWatch p).2 ∈
+      (((run P (t.txn wd) ops).commit wd).1.notify ((run P (t.txn wd) ops).commit wd).2.2).2.closed :=
+  (C12_prefix_channel_closed_any_calls P t h.reach.wf wd wd _ p ops hc0 (h.inv.prefix_lt p hc0) ht).1
+
+/-! ## 3. never early, never by an abandoned transaction -/
+
+/-- Commit leaves the closed set alone -/
+theorem C12_commit_closes_nothing (x : Txn) (wd : World) : (x.commit wd).2.2.closed = wd.closed :=
+  commit_closed x wd
+
+/-- in any session - calls on the transaction, Commit, in any order and number -
+    that does not contain a Notify, the set of closed channels does not change:
+    nothing is closed when handed out, before Notify, or by a transaction that is
+    dropped without Notify (`Tree.txn`, `Txn.insert`, `Txn.delete`, `Txn.bump`,
+    `Txn.clone` do not even take the World) -/
+theorem C12_closed_changes_only_at_notify (P : ArtParams) (s : Sess) (evs : List Ev)
+    (h : ∀ e ∈ evs, e ≠ Ev.notify) : (s.run P evs).wd.closed = s.wd.closed :=
+  Sess.closed_unchanged P s evs h
+
+/-! ## InsertWatch / ModifyWatch -/
+
+/-- outside root-only mode the channel InsertWatch / ModifyWatch returns is the
+    channel Get of that key hands out on the resulting tree -/
+theorem C12_insert_watch_is_get_channel (P : ArtParams) (x : Txn) (k : List Nat) (v : Nat)
+    (mod : Option (Nat → Nat → Nat)) (rw : Nat) (hro : x.st.rootOnly = false) (h0 : (x.insert P k v mod).2.2.2 ≠ 0) :
+    (getRoot (x.insert P k v mod).1.root rw k).2 = (x.insert P k v mod).2.2.2 :=
+  txn_insert_watch_eq_get P x k v mod rw hro h0
+
+/-- … and it is a real (non-nil) channel -/
+theorem C12_insert_watch_not_nil (P : ArtParams) (x : Txn) (k : List Nat) (v : Nat) (mod : Option (Nat → Nat → Nat))
+    (hro : x.st.rootOnly = false) (hnw : 0 < x.st.nextW) (hid : x.st.txnID ≠ 0) : (x.insert P k v mod).2.2.2 ≠ 0 :=
+  txn_insert_watch_pos P x k v mod hro hnw hid
+
+/-- **closes when that key is next changed**: commit the transaction after the
+    InsertWatch; in the next transaction `y` on the committed tree an insert /
+    modify of the key, or a delete of it, followed by anything, Commit and Notify
+    closes the channel -/
+theorem C12_insert_watch_closed_on_next_change (P : ArtParams) (x : Txn) (hwf : TxnWF x) (k : List Nat) (v : Nat)
+    (mod : Option (Nat → Nat → Nat)) (wd wd2 : World) (hro : x.st.rootOnly = false)
+    (h0 : (x.insert P k v mod).2.2.2 ≠ 0) :
+    let w := (x.insert P k v mod).2.2.2
+    let y := ((x.insert P k v mod).1.commit wd).2.1.txn wd2
+    (∀ v' mod' ops wd' wd'', w ∈ (((run P (y.insert P k v' mod').1 ops).commit wd').1.notify wd'').2.closed) ∧
+    (∀ ops wd' wd'', (y.delete P k).2 ≠ none →
+        w ∈ (((run P (y.delete P k).1 ops).commit wd').1.notify wd'').2.closed) := by
+  intro w y
+  have hyf : TxnFresh y := (((hwf.insert P k v mod).commit wd).txn wd2).2
+  have hget : (getRoot y.root y.rootWatch k).2 = w :=
+    txn_insert_watch_eq_get P x k v mod _ hro h0
+  constructor
+  · intro v' mod' ops wd' wd''
+    have := C12_get_channel_closed_after_insert P y hyf k v' mod' ops wd' wd'' (by rw [hget]; exact h0)
+    rw [hget] at this; exact this
+  · intro ops wd' wd'' hpres
+    have := C12_get_channel_closed_after_delete P y hyf k ops wd' wd'' hpres (by rw [hget]; exact h0)
+    rw [hget] at this; exact this
+
+/-! ## 4. no channel is handed out closed -/
+
+/-- the channel invariant (channels in the tree pairwise distinct, allocated
+    and open; the root watch a further open channel; closed channels allocated)
+    survives a whole transaction: any calls, Commit, Notify - in both orders -/
+theorem C12_channel_invariant_preserved (P : ArtParams) (wd : World) (t : Tree) (h : TreeInv wd t) (ops : List Op) :
+    TreeInv (((run P (t.txn wd) ops).commit wd).1.notify ((run P (t.txn wd) ops).commit wd).2.2).2
+      ((run P (t.txn wd) ops).commit wd).2.1 ∧
+    TreeInv (((run P (t.txn wd) ops).notify wd).1.commit ((run P (t.txn wd) ops).notify wd).2).2.2
+      (((run P (t.txn wd) ops).notify wd).1.commit ((run P (t.txn wd) ops).notify wd).2).2.1 :=
+  ⟨h.commit_notify P ops, h.notify_commit P ops⟩
+
+/-- it holds along every linear history starting from a new tree -/
+theorem C12_channel_invariant_reachable (P : ArtParams) (wd : World) (t : Tree) (h : Hist P wd t) : TreeInv wd t :=
+  h.inv
+
+/-- **not handed out closed**: on every tree of a linear history the channels
+    returned by Get(k), Prefix(p) and the root watch are not closed -/
+theorem C12_handed_out_channels_open (P : ArtParams) (wd : World) (t : Tree) (h : Hist P wd t) :
+    (∀ k, (getRoot t.root t.rootWatch k).2 ≠ 0 → (getRoot t.root t.rootWatch k).2 ∉ wd.closed) ∧
+    (∀ p, (prefixRoot t.root t.rootWatch p).2 ≠ 0 → (prefixRoot t.root t.rootWatch p).2 ∉ wd.closed) ∧
+    (t.rootWatch ≠ 0 → t.rootWatch ∉ wd.closed) :=
+  ⟨fun k => h.inv.get_open k, fun p => h.inv.prefix_open p, h.inv.rw_nc⟩
+
+/-- … and neither are the channels Get / Prefix hand out on an OPEN transaction
+    after any calls (they are channels of its tree, or the root watch) -/
+theorem C12_in_txn_handed_out_channels_open (P : ArtParams) (wd : World) (t : Tree) (h : Hist P wd t)
+    (ops : List Op) (k : List Nat) :
+    ((getRoot (run P (t.txn wd) ops).root (run P (t.txn wd) ops).rootWatch k).2 ≠ 0 →
+      (getRoot (run P (t.txn wd) ops).root (run P (t.txn wd) ops).rootWatch k).2 ∉ wd.closed) ∧
+    ((prefixRoot (run P (t.txn wd) ops).root (run P (t.txn wd) ops).rootWatch k).2 ≠ 0 →
+      (prefixRoot (run P (t.txn wd) ops).root (run P (t.txn wd) ops).rootWatch k).2 ∉ wd.closed) :=
+  h.inv.in_txn_open P ops k
+
+/-- the channel returned by an InsertWatch / ModifyWatch that is the last call
+    of a transaction is still open after that transaction's Commit and Notify -/
+theorem C12_insert_watch_open_after_commit (P : ArtParams) (wd : World) (t : Tree) (h : Hist P wd t) (ops : List Op)
+    (k : List Nat) (v : Nat) (mod : Option (Nat → Nat → Nat)) (hro : t.rootOnly = false)
+    (h0 : ((run P (t.txn wd) ops).insert P k v mod).2.2.2 ≠ 0) :
+    ((run P (t.txn wd) ops).insert P k v mod).2.2.2 ∉
+      (((run P (t.txn wd) (ops ++ [.insert k v mod])).commit wd).1.notify
+        ((run P (t.txn wd) (ops ++ [.insert k v mod])).commit wd).2.2).2.closed := by
+  have hrun : run P (t.txn wd) (ops ++ [.insert k v mod]) = ((run P (t.txn wd) ops).insert P k v mod).1 := by
+    rw [run_append]; rfl
+  have hinv := h.inv.commit_notify P (ops ++ [.insert k v mod])
+  rw [hrun] at hinv ⊢
+  have hro' : (run P (t.txn wd) ops).st.rootOnly = false := (later_run P (t.txn wd) ops).ro.trans hro
+  have hget := txn_insert_watch_eq_get P (run P (t.txn wd) ops) k v mod
+    (((run P (t.txn wd) ops).insert P k v mod).1.commit wd).2.1.rootWatch hro' h0
+  have hopen := hinv.get_open k
+  rw [(commit_facts _ wd).2.1, hget] at hopen
+  exact hopen h0
+
+/-- **InsertWatch channel along a linear history**: the channel returned by the
+    last call (an InsertWatch / ModifyWatch of `k`) of one transaction is closed
+    by the next transaction as soon as any of its calls changes `k` again -/
+theorem C12_insert_watch_closed_by_next_txn_hist (P : ArtParams) (wd : World) (t : Tree) (h : Hist P wd t)
+    (ops : List Op) (k : List Nat) (v : Nat) (mod : Option (Nat → Nat → Nat)) (hro : t.rootOnly = false)
+    (h0 : ((run P (t.txn wd) ops).insert P k v mod).2.2.2 ≠ 0) (ops2 : List Op) :
+    let x := run P (t.txn wd) (ops ++ [.insert k v mod])
+    let t' := (x.commit wd).2.1
+    let wd' := ((x.commit wd).1.notify (x.commit wd).2.2).2
+    touched P (t'.txn wd') k ops2 = true →
+    ((run P (t.txn wd) ops).insert P k v mod).2.2.2 ∈
+      (((run P (t'.txn wd') ops2).commit wd').1.notify ((run P (t'.txn wd') ops2).commit wd').2.2).2.closed := by
+  intro x t' wd' ht
+  have h' : Hist P wd' t' := Hist.commit_notify wd t (ops ++ [.insert k v mod]) h
+  have hrun : x = ((run P (t.txn wd) ops).insert P k v mod).1 := by
+    show run P (t.txn wd) (ops ++ [.insert k v mod]) = _
+    rw [run_append]; rfl
+  have hro' : (run P (t.txn wd) ops).st.rootOnly = false := (later_run P (t.txn wd) ops).ro.trans hro
+  have hget : (getRoot t'.root t'.rootWatch k).2 = ((run P (t.txn wd) ops).insert P k v mod).2.2.2 := by
+    have := txn_insert_watch_eq_get P (run P (t.txn wd) ops) k v mod t'.rootWatch hro' h0
+    rw [← hrun] at this
+    exact this
+  have := C12_get_channel_closed_any_calls_hist P wd' t' h' k ops2 (by rw [hget]; exact h0) ht
+  rw [hget] at this
+  exact this
+
+/-! ## root-only-watch mode -/
+
+/-- in root-only mode every reachable tree hands out its root watch for every
+    Get and Prefix (so the root-watch clauses above say everything), and
+    InsertWatch / ModifyWatch return the transaction's root watch -/
+theorem C12_root_only_get_is_root_watch (P : ArtParams) (t : Tree) (h : Reach P t) (hro : t.rootOnly = true)
+    (k : List Nat) :
+    (getRoot t.root t.rootWatch k).2 = t.rootWatch ∧ (prefixRoot t.root t.rootWatch k).2 = t.rootWatch :=
+  ro_get_is_root t.root t.rootWatch (h.roTree hro) k
+
+theorem C12_root_only_insert_watch_is_root_watch (P : ArtParams) (x : Txn) (hro : x.st.rootOnly = true) (k : List Nat)
+    (v : Nat) (mod : Option (Nat → Nat → Nat)) : (x.insert P k v mod).2.2.2 = x.rootWatch := by
+  unfold Txn.insert
+  split <;> simp [hro]
+
+/-! ## non-vacuity -/
+
+/-- a committed two-leaf tree under an inner node, opened by transaction 1 -/
+def c12ExTree : Node :=
+  .inner 4 [1] none (.cons 2 (.leaf [2] ⟨[1,2], 7, 3⟩) (.cons 3 (.leaf [3] ⟨[1,3], 8, 4⟩) .nil)) 5 0
+def c12ExWorld : World := {}
+def c12ExTxn : Txn := { root := some c12ExTree, rootWatch := 2, size := 2, dirty := false,
+                        st := { txnID := 1, nextW := 6, pending := [], rootOnly := false } }
+
+example : TxnFresh c12ExTxn := by
+  intro r hr
+  simp only [c12ExTxn, Option.some.injEq] at hr
+  subst hr
+  simp [c12ExTree, c12ExTxn, Stamps, StampsK]
+
+-- Get([1,2]) hands out the leaf's channel 3, Prefix([1]) the inner node's channel 5; an
+-- insert of [1,2] records both; the InsertWatch channel is the fresh channel 6
+example : (getRoot c12ExTxn.root c12ExTxn.rootWatch [1,2]).2 = 3 := by decide
+example : (prefixRoot c12ExTxn.root c12ExTxn.rootWatch [1]).2 = 5 := by decide
+example : 3 ∈ (c12ExTxn.insert Gen.artParams [1,2] 9 none).1.st.pending ∧
+    5 ∈ (c12ExTxn.insert Gen.artParams [1,2] 9 none).1.st.pending := by decide
+example : (c12ExTxn.insert Gen.artParams [1,2] 9 none).2.2.2 = 6 := by decide
+example : (c12ExTxn.delete Gen.artParams [1,2]).2 ≠ none ∧ (c12ExTxn.delete Gen.artParams [9]).2 = none := by decide
+
+/-- **the documented restriction is real**: transaction 1 inserts [1,2] (cloning
+    the inner node, fresh channel 7), then Get([1,4]) hands out 7, then the same
+    transaction inserts [1,4] through the node it owns: channel 7 is neither
+    recorded nor the root watch, and stays open after Commit + Notify -/
+theorem C12_in_txn_channel_after_own_write_not_closed_refuted :
+    let x1 := (c12ExTxn.insert Gen.artParams [1,2] 9 none).1
+    let c := (getRoot x1.root x1.rootWatch [1,4]).2
+    let x2 := (x1.insert Gen.artParams [1,4] 5 none).1
+    c = 7 ∧ c ∉ ((x2.commit c12ExWorld).1.notify (x2.commit c12ExWorld).2.2).2.closed := by decide
+
+/-- a linear history: a new tree in the initial world … -/
+example : Hist Gen.artParams (newTree c12ExWorld false).1 (newTree c12ExWorld false).2 :=
+  Hist.new c12ExWorld false (by simp [c12ExWorld])
+-- … and a transaction with several calls that touches [1,2] and changes the tree
+example : touched Gen.artParams ((newTree c12ExWorld false).2.txn (newTree c12ExWorld false).1) [1,2]
+    [.insert [1,3] 8 none, .bump, .insert [1,2] 7 none, .delete [9]] = true := by decide
+example : touchedP Gen.artParams ((newTree c12ExWorld false).2.txn (newTree c12ExWorld false).1) [1]
+    [.delete [9], .insert [1,2] 7 none] = true := by decide
+example : anyChange Gen.artParams c12ExTxn [.delete [9], .bump] = false := by decide
+example : TreeWF ((c12ExTxn.insert Gen.artParams [1,2] 9 none).1.commit c12ExWorld).2.1 :=
+  TxnWF.commit (TxnWF.insert Gen.artParams (by
+    intro r hr
+    simp only [c12ExTxn, Option.some.injEq] at hr
+    subst hr
+    simp [c12ExTree, c12ExTxn, Stamps, StampsK]) [1,2] 9 none) c12ExWorld
+
 end Sdb
